@@ -98,10 +98,11 @@ end LA.Reasm
 sync/atomic method on one (regenerated list, see LA.Proofs.StateFacts): all state is in the object the model is given. -/
 theorem C19_state_is_in_the_object : LA.StateFacts.ofPkg "" = [] := by decide
 
-/-- The time-out is measured on the clock the model assumes: every non-zero `time.Time` reachable from a Reassembler
-that buffers one event (read off the running library through reflection on every run, whatever the fields are called;
+/-- The time-out is measured on the clock the model assumes: there is a non-zero `time.Time` reachable from a Reassembler
+that buffers one event, and every such value (read off the running library through reflection on every run, whatever the fields are called;
 see harness/cmd/extract/reasmfacts.go) carries a monotonic clock reading, so a step of the wall clock between arrival
 and the next call neither delays nor hastens a delivery. A deadline that went through `UTC()`, `Round`, `Truncate` or
 an integer is a wall-clock reading: no history this harness can produce distinguishes it (stepping the system clock
 is not something a check may do), which is why it is an obligation. -/
-theorem C19_timeout_on_the_monotonic_clock : LA.Gen.ReasmFacts.deadlinesMonotonic.all (· == true) = true := by decide
+theorem C19_timeout_on_the_monotonic_clock :
+    LA.Gen.ReasmFacts.deadlinesMonotonic ≠ [] ∧ LA.Gen.ReasmFacts.deadlinesMonotonic.all (· == true) = true := by decide
